@@ -259,7 +259,12 @@ def run_cover(check, rule, visitor, targets, exclusions, min_overrides, block_ov
     prog = check.prog
     graph = AdtGraph(prog.adts)
     ovs = overrides_of(prog, visitor)
-    if isinstance(min_overrides, (set, list, tuple)):
+    if isinstance(min_overrides, (list, tuple)) and min_overrides and all(isinstance(x, (set, frozenset)) for x in min_overrides):
+        # alternatives: one of the sets must be overridden completely (`visit_expr`, or the per-node hooks it can be split into)
+        have = {f.name for f in ovs}
+        best = min((sorted(set(alt) - have) for alt in min_overrides), key=len)
+        check.expect(not best, rule, "%s/ANCHOR/overrides of %s" % (rule, visitor), "-", "%s overrides %s" % (visitor, sorted(have)), "essential override(s) %s of %s not found: anchor lost" % (best, visitor))
+    elif isinstance(min_overrides, (set, list, tuple)):
         missing_ov = sorted(set(min_overrides) - {f.name for f in ovs})
         check.expect(not missing_ov, rule, "%s/ANCHOR/overrides of %s" % (rule, visitor), "-", "%s overrides %s" % (visitor, sorted(f.name for f in ovs)), "essential override(s) %s of %s not found: anchor lost" % (missing_ov, visitor))
     else:
